@@ -142,29 +142,33 @@ def run_fill(ctx):
             "into_seed_stream does not start at position 0 with self.base_block", loc=f2.loc)
     except Skip:
         pass
-    # --- the Rng impls of all three streams forward the whole destination
+    # --- the Rng impls of all three streams produce the whole destination from the underlying stream: either by forwarding
+    # to an inherent `fill`/reader or with that helper's body inlined
+    def aes_ctr_fill(fx, bufp):
+        cs = calls_named(ctx, fx, "fill", "apply_keystream")
+        names = [c[1].split("::")[-1] for _, c in cs]
+        return names == ["fill", "apply_keystream"] and S(bufp)(cs[0][1][2][0]) and Lit(0)(cs[0][1][2][1]) and S(bufp)(cs[1][1][2][1]) \
+            and fx.body.dominates(cs[0][0], cs[1][0])
     for adt, inner in (("vdaf::xof::SeedStreamFixedKeyAes128", "fill"), ("vdaf::xof::SeedStreamAes128", "fill"),
                        ("vdaf::xof::SeedStreamTurboShake128", "read")):
         try:
             f3 = ctx.fn(rule, name="try_fill_bytes", self_adt=adt)
             cs = calls_named(ctx, f3, inner)
-            good = len(cs) == 1 and Local(2)(cs[0][1][2][1]) and Mentions(Local(1))(cs[0][1][2][0])
+            fwd = [c for _, c in cs if len(c[2]) == 2 and Local(2)(c[2][1]) and Mentions(Local(1))(c[2][0])]
             others = [t.callee.name for bi, t in f3.body.calls() if t.callee.name != inner]
-            req(ctx, rule, "%s:%s:forwards-whole-dest" % (rule, f3.id), good and not others,
-                "try_fill_bytes = %s(self, dest)" % inner, "try_fill_bytes does not forward the whole destination once: %s %s" % (
-                    [fmt(c[1])[:80] for c in cs], others), loc=f3.loc)
+            good = len(fwd) == 1 and len(cs) == 1 and not others
+            how = "try_fill_bytes = %s(self, dest)" % inner
+            if not good and adt.endswith("SeedStreamAes128"):
+                good = aes_ctr_fill(f3, Local(2))
+                how = "try_fill_bytes zeroes dest and applies the keystream to all of it (helper inlined)"
+            req(ctx, rule, "%s:%s:forwards-whole-dest" % (rule, f3.id), good, how,
+                "try_fill_bytes does not produce the whole destination from the stream once: %s %s" % ([fmt(c[1])[:80] for c in cs], others), loc=f3.loc)
         except Skip:
             pass
-    try:
-        f4 = ctx.fn(rule, name="fill", self_adt="vdaf::xof::SeedStreamAes128")
-        cs = calls_named(ctx, f4, "fill", "apply_keystream")
-        names = [c[1].split("::")[-1] for _, c in cs]
-        good = names == ["fill", "apply_keystream"] and Local(2)(cs[0][1][2][0]) and Lit(0)(cs[0][1][2][1]) and Local(2)(cs[1][1][2][1]) \
-            and f4.body.dominates(cs[0][0], cs[1][0])
-        req(ctx, rule, "%s:%s" % (rule, f4.id), good, "buf.fill(0); keystream applied to the whole buffer",
+    f4s = ctx.prog.find(name="fill", self_adt="vdaf::xof::SeedStreamAes128")
+    for f4 in f4s:
+        req(ctx, rule, "%s:%s" % (rule, f4.id), aes_ctr_fill(f4, Local(2)), "buf.fill(0); keystream applied to the whole buffer",
             "SeedStreamAes128::fill is not `zero the whole buffer, then apply the keystream to it`", loc=f4.loc)
-    except Skip:
-        pass
     # next_u32/next_u64 are served from the same byte stream (rand's next_word_via_fill reads through fill_bytes)
     for nm in ("try_next_u32", "try_next_u64"):
         for f5 in ctx.fns(rule, 3, name=nm, id_re=r"vdaf::xof::SeedStream"):
@@ -466,7 +470,7 @@ def run(ctx):
     ctx.floor("R-C11.A", 12)
     ctx.floor("R-C11.A.update", 3)
     ctx.floor("R-C11.S", 2)
-    ctx.floor("R-C11.F", 10)
+    ctx.floor("R-C11.F", 9)
     ctx.floor("R-C11.P", 10)
     ctx.floor("R-C11.M", 14)
     ctx.floor("R-C11.R", 2)
